@@ -34,6 +34,8 @@ def fold_workflow(f):
         fo = Folder(symbolic=True)
         fo.func_stack.append(f.node)
         fo.fold_all_methods = True
+        # the abstract / overridable hooks stay symbols (the base class bodies are placeholders)
+        fo.overrides = {nm: (lambda a, k, nm=nm: Sym(nm, a, k)) for nm in ("self.correct_metadata", "self.correct_array", "self.correct_array_series")}
         fields = {"__class__": "BaseCorrection"}
         if has:
             fields["correct_array_series"] = Opaque("callable", "self.correct_array_series")
@@ -77,7 +79,12 @@ def fold_workflow(f):
                     if not (isinstance(r, Sym) and r.fn == "type(image)" and len(r.args) == 1 and set(r.kw) == {"**"}):
                         return None
                     got = repr(r.args[0])
-                    if repr(r.kw["**"]) != "image.metadata()" or "image.metadata().update(self.correct_metadata(image.metadata()))" not in tr:
+                    merged = repr(r.kw["**"])
+                    if merged == "dictmerge(image.metadata(), self.correct_metadata(image.metadata()))":
+                        pass  # {**metadata(), **declared updates}: the updates override
+                    elif merged == "dictmerge(self.correct_metadata(image.metadata()), image.metadata())":
+                        out["a"].append(f"{case}: the copy is built from {{**declared updates, **metadata()}}: the input's metadata overrides the correction's declared updates")
+                    elif repr(r.kw["**"]) != "image.metadata()" or "image.metadata().update(self.correct_metadata(image.metadata()))" not in tr:
                         if repr(r.kw["**"]) == "image.metadata()" and not any(".update(" in t or "correct_metadata" in t for t in tr):
                             out["a"].append(f"{case}: the copy is built from the input's metadata without the declared updates")
                         else:
